@@ -149,6 +149,28 @@ template <class T> static void extreme_T (uint64_t seed, int n)
             dir[b] = -tb;
             run<T> ("extreme", mnv, mxv, pos, dir);
         }
+        if (it % 8 == 4)
+        {
+            // Directed: a box that is empty by the smallest possible amount on one axis (inverted by one ulp, or by the smallest
+            // subnormal), with the origin far away along that axis and the line passing through the other two slabs: the two
+            // plane distances of the inverted axis round to the same value, so only an explicit emptiness test says "no".
+            int a = (int) rng.below (3);
+            for (int i = 0; i < 3; ++i) { mnv[i] = (T) rng.range (-2, 1); mxv[i] = mnv[i] + (T) rng.range (1, 3); pos[i] = (mnv[i] + mxv[i]) / 2; dir[i] = 0; }
+            switch (rng.below (3))
+            {
+                case 0: mxv[a] = (T) rng.range (1, 3); mnv[a] = std::nextafter (mxv[a], big); break;
+                case 1: mxv[a] = 0; mnv[a] = tiny; break;
+                default: mnv[a] = 0; mxv[a] = -tiny; break;
+            }
+            T far_ = (T) rng.range (100, 1000);
+            bool neg = rng.below (2) != 0;
+            pos[a] = neg ? -far_ : far_;
+            dir[a] = neg ? T (1) : T (-1);                                      // towards the box
+            if (rng.below (2)) dir[(a + 1) % 3] = (T) std::ldexp (1.0, -14);      // a slight slope that stays inside the other slabs
+            run<T> ("extreme", mnv, mxv, pos, dir);
+            dir[a] = -dir[a];                                                    // and away from it (the line still crosses)
+            run<T> ("extreme", mnv, mxv, pos, dir);
+        }
     }
 }
 
